@@ -1,4 +1,117 @@
+/-
+C01 — property theorems (statements fixed by the architect; do not weaken).
+`Gen.Page.sortKeyById` is GENERATED from the Python source on every run; every proof that needs it
+to be `true` must obtain that fact ONLY through `key_by_id` below (proved by `rfl`).
+Helper lemmas: PeroVerif/Lemmas/Decimal.lean (printing/parsing round trips) and
+PeroVerif/Lemmas/PageXml.lean.
+-/
 import PeroVerif.Model.PageXml
+import PeroVerif.Lemmas.Decimal
+import PeroVerif.Lemmas.PageXml
+
 namespace C01
-theorem placeholder : (1:Nat) = 1 := rfl
+open PX Py
+
+/-- obligation on the generated flag -/
+theorem key_by_id : Gen.Page.sortKeyById = true := rfl
+
+theorem roKey_eq (ro : Dict Str Int) (r : Region) : roKey ro r = Dict.get? ro r.id := by
+  simp [roKey, key_by_id]
+
+/-! ### printing / parsing round trips -/
+
+theorem parseInt_showInt (i : Int) : parseInt (showInt i) = some i := Py.parseInt_showInt i
+
+/- FALSE for `k = 0` (`showFixed 0 5 = "5.0"`, whose fraction has 1 ≠ 0 digits; see `parseFixed_showFixed_false`):
+theorem parseFixed_showFixed (k n : Nat) : parseFixed k (showFixed k n) = some n
+The model only uses `k = 1` (heights) and `k = 3` (confidence). -/
+theorem parseFixed_showFixed_false : parseFixed 0 (showFixed 0 5) = none := by decide
+
+theorem parseFixed_showFixed_partial (k n : Nat) (hk : 0 < k) : parseFixed k (showFixed k n) = some n :=
+  Py.parseFixed_showFixed_pos k n hk
+
+theorem parsePoints_showPoints (ps : List (Int × Int)) (h : ps ≠ []) :
+    parsePoints (showPoints ps) = .ok ps := PX.parsePoints_showPoints ps h
+
+theorem parseHeights_showHeights (h : Nat × Nat) : parseHeights (showHeights h) = .ok h :=
+  PX.parseHeights_showHeights h
+
+/-! ### the round trip -/
+
+def WFLine (l : Line) : Prop := l.baseline ≠ [] ∧ l.polygon ≠ [] ∧ (l.text = none → l.conf = none)
+
+/-- the property's quantifier: every polygon / baseline has at least one point, a confidence only
+accompanies a transcription, the reading order is a dict (distinct keys) -/
+def WF (p : Page) : Prop :=
+  (∀ r ∈ p.regions, r.polygon ≠ [] ∧ ∀ l ∈ r.lines, WFLine l) ∧
+  (∀ ro, p.ro = some ro → (ro.map (·.1)).Nodup)
+
+/-- Saving and loading back yields the same (quantised) page: same id and size, the regions in
+reading order with ids, types, polygons, text, and the lines with ids, indices (position when absent),
+baselines, polygons, heights, transcriptions and confidences — for both PAGE versions. -/
+theorem import_export (v : Version) (p : Page) (h : WF p) :
+    importPage (exportPage v p) = .ok (canon p) := importPage_exportPage v p h.1 h.2
+
+theorem canon_idem (p : Page) (h : WF p) : canon (canon p) = canon p :=
+  let _ := h; canon_canon p
+
+theorem canon_wf (p : Page) (h : WF p) : WF (canon p) :=
+  ⟨canon_regions_wf p h.1, canon_ro_wf p h.2⟩
+
+/-- Fixpoint: exporting the re-loaded page and loading it again gives the same page, hence the
+identical document (timestamps live in the abstract `Metadata` node). -/
+theorem export_fixpoint (v : Version) (p : Page) (h : WF p) :
+    ∃ p', importPage (exportPage v p) = .ok p' ∧
+      ∃ p'', importPage (exportPage v p') = .ok p'' ∧ exportPage v p'' = exportPage v p' := by
+  refine ⟨canon p, import_export v p h, canon (canon p), import_export v (canon p) (canon_wf p h), ?_⟩
+  rw [canon_idem p h]
+
+/-! ### reading order -/
+
+/-- only reorders -/
+theorem sortRO_perm (ro : Dict Str Int) (rs : List Region) : (sortRO ro rs).Perm rs := sortRO_perm' ro rs
+
+/-- regions are held in reading order: keys non-decreasing, unlisted regions (key +∞) last -/
+theorem sortRO_sorted (ro : Dict Str Int) (rs : List Region) :
+    (sortRO ro rs).Pairwise fun a b => keyLe (Dict.get? ro a.id) (Dict.get? ro b.id) = true := by
+  simpa only [roKey_eq] using sortRO_pairwise ro rs
+
+/-- … otherwise stable: regions with the same key keep their relative order -/
+theorem sortRO_stable (ro : Dict Str Int) (rs : List Region) (k : Option Int) :
+    (sortRO ro rs).filter (fun r => Dict.get? ro r.id = k) = rs.filter (fun r => Dict.get? ro r.id = k) := by
+  simpa only [roKey_eq] using sortRO_stable' ro rs k
+
+/-- the exported document lists the regions in that order -/
+theorem export_in_reading_order (v : Version) (p : Page) (ro : Dict Str Int) (h : p.ro = some ro) :
+    ∃ pre, exportPageElem p =
+      .node k_Page [(k_imageFilename, p.id), (k_imageWidth, showInt p.width), (k_imageHeight, showInt p.height)]
+        none (pre :: (sortRO ro p.regions).map exportRegion) := by
+  let _ := v
+  refine ⟨exportRO ro, ?_⟩
+  simp [exportPageElem, h]
+
+/-! ### non-vacuity: 3 regions, partial reading order, negative coordinate, empty and absent text -/
+def exLine (i : Str) (t : Option Str) : Line :=
+  { id := i, index := none, baseline := [(-5, 7), (10, 7)], polygon := [(0, 0), (10, 0), (10, 9)],
+    heights := some (123, 40), text := t, conf := t.map fun _ => 875 }
+def exPage : Page :=
+  { id := [112], height := 100, width := 200,
+    regions := [⟨[97], none, [(0, 0)], none, [exLine [108, 49] (some []), exLine [108, 50] none]⟩,
+                ⟨[98], some [104], [(1, 1)], some [120], []⟩,
+                ⟨[99], none, [(2, 2)], none, [exLine [108, 51] (some [60, 38, 62])]⟩],
+    ro := some [([99], 0), ([97], 1)] }
+/-- the hypotheses of the round-trip theorems are satisfiable by a non-trivial page -/
+theorem exPage_wf : WF exPage := by
+  refine ⟨?_, ?_⟩
+  · intro r hr
+    simp only [exPage, List.mem_cons, List.not_mem_nil, or_false] at hr
+    rcases hr with rfl | rfl | rfl <;> simp [WFLine, exLine]
+  · intro ro h
+    simp only [exPage, Option.some.injEq] at h
+    subst h
+    decide
+/-- and the reading order really reorders it: c, a, then the unlisted b -/
+theorem exPage_order : (canon exPage).regions.map (·.id) = [[99], [97], [98]] := by
+  simp [canon, exPage, sortRO, List.mergeSort, List.MergeSort.Internal.splitInTwo, roKey_eq, Dict.get?, keyLe]
+
 end C01
